@@ -341,6 +341,24 @@ theorem C16_select_project_empty (isWord : Char → Bool) (lower : List Char →
   · have := h1.resolve_left hne; simp [hall t htm] at this
   · have := h2.resolve_left hne; simp [hall t htm] at this
 
+/-- **Tasks that come into existence later** (children of a task generator) are judged by the same formulas when the
+selection is applied to the grown task list: the verdict on the earlier tasks does not change, and a new task stays
+selected iff every given expression is true for it (`C16_select_project` on `tasks ++ new`). -/
+theorem C16_select_project_grow (isWord : Char → Bool) (lower : List Char → List Char) (kexpr mexpr : List Char)
+    (tasks new : List TaskInfo) (ak am : Ast) (hk : kexpr = [] ∨ compile isWord kexpr = .ok ak)
+    (hm : mexpr = [] ∨ compile isWord mexpr = .ok am) :
+    ∃ res res', selectProject isWord lower kexpr mexpr tasks = .ok res ∧
+      selectProject isWord lower kexpr mexpr (tasks ++ new) = .ok res' ∧
+      (∀ i, i < tasks.length → (i ∈ res' ↔ i ∈ res)) ∧
+      (∀ j t, new[j]? = some t → (tasks.length + j ∈ res' ↔
+        (kexpr = [] ∨ eval (kwMatch lower (kwNames t)) ak = true) ∧ (mexpr = [] ∨ eval (markMatch t.markers) am = true))) := by
+  obtain ⟨res, hres, hmem⟩ := C16_select_project isWord lower kexpr mexpr tasks ak am hk hm
+  obtain ⟨res', hres', hmem'⟩ := C16_select_project isWord lower kexpr mexpr (tasks ++ new) ak am hk hm
+  refine ⟨res, res', hres, hres', fun i hi => ?_, fun j t hj => ?_⟩
+  · rw [hmem, hmem', List.getElem?_append_left hi]
+  · rw [hmem', List.getElem?_append_right (Nat.le_add_right _ _), Nat.add_sub_cancel_left, hj]
+    simp
+
 /-- **after, per project.** `_modify_dag` visits the tasks in some order; whatever that order and whatever `after` strings
 the *other* tasks carry, a task without string gets no after-predecessor and a task `i` with string `e` gets exactly
 `afterPredsOf … i e`: the tasks whose `KeywordMatcher` satisfies the formula `e` denotes, minus `i` itself. The result
